@@ -198,6 +198,7 @@ def probe_positions(td, rng, extra=6):
         ps |= {p - TICK, p - TICK // 2, p, p + TICK // 4, p + TICK // 2, p + TICK}
     mx = max(td.event_positions())
     ps |= {-Q, -TICK, mx + Q, mx + 5 * TICK}
+    ps |= {-4 * Q, -4 * Q - TICK, -12 * Q + Q // 2, -rng.randrange(4 * Q, 40 * Q)}        # measures before beat 0
     for _ in range(extra):
         ps.add(rng.randrange(-2 * Q, mx + 4 * Q))
     return sorted(ps)
